@@ -82,7 +82,7 @@ impl GenCfg {
             loops: true,
             read_counts: true,
             turns_since: true,
-            choice_count: true,
+            choice_count: false,
             strings: true,
             random: false,
             lists: false,
@@ -431,6 +431,9 @@ impl<'a> Builder<'a> {
         if self.cfg.read_counts && !self.cur_labels.is_empty() && self.rng.chance(1, 3) {
             let l = self.rng.pick(&self.cur_labels.clone()).clone();
             opts.push(Expr::ReadCount(l));
+        }
+        if self.cfg.choice_count && self.rng.chance(1, 6) {
+            opts.push(Expr::ChoiceCount);
         }
         let i = self.rng.below(opts.len());
         opts.swap_remove(i)
